@@ -4,6 +4,15 @@ Theorems: coq/theorems/C15.v (model coq/model/PathM.v).  Tie: functional lock-st
 real infretis.classes.path.Path / paste_paths against the extracted model on all order
 sequences over a 5-value alphabet (exhaustive small scope) plus seeded random cases, with the
 property's own oracle evaluated on the implementation's results.
+
+Frames are compared as WHOLE objects.  Every frame is a real `System` whose every declared
+field (discovered from `vars(System())` at run time) holds a non-default value, plus
+dynamically attached attributes.  The model's opaque payload `ftag` is the interned content of
+ALL of `vars(frame)` other than order[0] and vel_rev, and the oracle compares `vars(frame)`
+attribute by attribute: reverse∘reverse, copy, `+=` and paste must keep every attribute, a
+single reverse may flip the velocity flag and nothing else, and re-assigning ANY attribute of
+a copied frame must leave the original alone.  The classification oracle derives all four
+components of `check_interfaces` (start, end, middle, cross) from the extreme values.
 """
 import importlib.util  # noqa: F401
 import itertools
@@ -13,34 +22,219 @@ import common
 META = {
     "id": "C15",
     "level": "proof",
-    "technique": "Coq theorems over list model of Path (firstn/rev algebra, extreme values) + exhaustive small-scope lock-step of extracted model vs Path/paste_paths",
-    "text": "Unbounded theorems (any segment pair, limit, overlap flag, order sequence, interface list) about an executable model of path.py; the model is tied to /repo by running the extracted model and the real Path methods on the same inputs (all sequences over a 5-letter alphabet up to the tier's length, all limits, both flags) and by evaluating the property's statement directly on the implementation's outputs.",
-    "note": "Trusted: Coq kernel; extraction (ExtrOcamlBasic) + OCaml driver; the Python harness and its generators. Frames are abstracted to (order, identity tag, vel_rev, object id); numpy argmin/argmax semantics mirrored as first index of the extreme. Floats: only integer-valued orders are used so comparisons are exact.",
+    "technique": "Coq theorems over list model of Path (firstn/rev algebra, extreme values, opaque whole-frame payload) + exhaustive small-scope lock-step of extracted model vs Path/paste_paths on whole System objects",
+    "text": "Unbounded theorems (any segment pair, limit, overlap flag, order sequence, interface list, any content of the frames' other fields) about an executable model of path.py; the model is tied to /repo by running the extracted model and the real Path methods on the same inputs (all sequences over a 5-letter alphabet up to the tier's length, all limits, both flags) and by evaluating the property's statement directly on the implementation's outputs: frames are whole System objects with a non-default value in every field the real class declares (discovered at run time) plus dynamically attached attributes, every attribute in vars(frame) must survive reverse-twice, copy, += and paste (a single reverse flips only vel_rev), re-assigning any attribute of a copied/reversed/added frame must not reach the original, and start, end, middle marker and crossing flags of check_interfaces (and get_start_point/get_end_point) are each recomputed from first/last/min/max.",
+    "note": "Trusted: Coq kernel; extraction (ExtrOcamlBasic) + OCaml driver; the Python harness and its generators. Frames are abstracted to (order[0], vel_rev, object id, payload): the payload (ftag : Z) is opaque in the model and stands for every other attribute in vars(frame) — config, order[1:], pos, vel, ekin, vpot, box, temperature, attributes attached after construction; the harness interns the canonical content (numpy arrays by shape/dtype/bytes, floats by hex) to one integer per distinct content, so a lost, added or altered attribute breaks both the oracle (concrete input reported) and the correspondence. The record was not widened by a separate field because model/PathM.v is shared with C09-C12 (their models and drivers build frames positionally); ftag already is that field. Equality of attributes is by value (a deep-copying System.copy would also pass); in-place mutation of a shared array through a copy is outside the property (it speaks of re-assigning a field). numpy argmin/argmax semantics mirrored as first index of the extreme. Floats: only integer-valued orders are used so comparisons are exact.",
     "design_ref": "4/C15",
 }
 LEVEL = "proof"
 
 ALPHA = [0, 1, 2, 3, 4]   # below / = left / inside / = right / above for interfaces (1,_,3)
+MODELLED = ("order", "vel_rev")   # represented explicitly in the model (order[0], vel_rev); the rest is payload
+DYNAMIC = ("c15_note", "c15_thermostat")   # attributes attached to a frame after construction
 
 
-def mk_path(orders, maxlen, t0=0, revs=None, tag0=0):
-    from infretis.classes.path import Path
-    from infretis.classes.system import System
-    p = Path(maxlen=maxlen, time_origin=t0)
-    for i, o in enumerate(orders):
-        s = System()
-        s.order = [float(o)]
-        s.config = (f"file{tag0 + i}", tag0 + i)
-        s.vel_rev = bool(revs[i]) if revs else False
-        s.vpot = 0.5 * (tag0 + i)
-        p.phasepoints.append(s)
-    return p
+# ----------------------------------------------------------------------------- whole frames
+
+def canon(v):
+    """Canonical, hashable, exact content of an attribute value."""
+    import numpy as np
+    if isinstance(v, np.ndarray):
+        if v.dtype == object:
+            return ("ndobj", v.shape, canon(v.tolist()))
+        return ("nd", v.shape, str(v.dtype), v.tobytes())
+    if isinstance(v, (bool, np.bool_)):
+        return ("bool", bool(v))
+    if isinstance(v, (int, np.integer)):
+        return ("int", int(v))
+    if isinstance(v, (float, np.floating)):
+        return ("float", float(v).hex())
+    if isinstance(v, str):
+        return ("str", v)
+    if v is None:
+        return ("none",)
+    if isinstance(v, dict):
+        return ("dict", tuple(sorted((canon(k), canon(x)) for k, x in v.items())))
+    if isinstance(v, (list, tuple)):
+        return (type(v).__name__, tuple(canon(x) for x in v))
+    if isinstance(v, (set, frozenset)):
+        return ("set", tuple(sorted(canon(x) for x in v)))
+    return ("obj", type(v).__name__, repr(v))
+
+
+def show(c):
+    """Readable form of a canonical value (for messages only)."""
+    import numpy as np
+    kind = c[0]
+    if kind == "nd":
+        return np.frombuffer(c[3], dtype=c[2]).reshape(c[1]).tolist()
+    if kind == "ndobj":
+        return show(c[2])
+    if kind in ("bool", "int", "str"):
+        return c[1]
+    if kind == "float":
+        return float.fromhex(c[1])
+    if kind == "none":
+        return None
+    if kind == "dict":
+        return {str(show(k)): show(x) for k, x in c[1]}
+    if kind in ("list", "tuple", "set"):
+        return [show(x) for x in c[1]]
+    return c[-1]
+
+
+def whole(s):
+    """Every attribute of a frame object: name -> canonical content."""
+    return {k: canon(v) for k, v in vars(s).items()}
+
+
+def snap(path):
+    return [whole(s) for s in path.phasepoints]
+
+
+def diff_whole(got, want):
+    for k in sorted(set(got) | set(want)):
+        if k not in got:
+            return f"attribute {k!r} is missing (expected {show(want[k])!r})"
+        if k not in want:
+            return f"unexpected attribute {k!r} = {show(got[k])!r}"
+        if got[k] != want[k]:
+            return f"attribute {k!r} is {show(got[k])!r}, expected {show(want[k])!r}"
+    return None
+
+
+def diff_frames(label, got, want):
+    if len(got) != len(want):
+        return f"{label}: {len(got)} frames, expected {len(want)}"
+    for i, (g, w) in enumerate(zip(got, want)):
+        d = diff_whole(g, w)
+        if d:
+            return f"{label}: frame {i}: {d}"
+    return None
+
+
+def flipped(w, rv):
+    if not rv:
+        return w
+    w = dict(w)
+    w["vel_rev"] = ("bool", not w["vel_rev"][1])
+    return w
+
+
+def first_orders(path):
+    """order[0] of every frame (None when a frame lost it)."""
+    out = []
+    for s in path.phasepoints:
+        try:
+            out.append(int(s.order[0]))
+        except Exception:
+            out.append(None)
+    return out
+
+
+class Frames:
+    """Generator of fully populated System objects and interning of their payload."""
+
+    def __init__(self):
+        from infretis.classes.system import System
+        self.System = System
+        self.defaults = dict(vars(System()))     # the declared fields, from the real class
+        self.declared = list(self.defaults)
+        for name in MODELLED:
+            if name not in self.defaults:
+                raise RuntimeError(f"System no longer declares {name!r}: the C15 model (order[0], vel_rev, payload) is stale")
+        self.templ = {}
+        self.tags = {}
+        self.used_fields = set()
+
+    def fill_value(self, name, k):
+        """A non-default value for a declared field, determined by the frame number k."""
+        import numpy as np
+        default = self.defaults[name]
+        known = {
+            "config": lambda: (f"file{k}", k),
+            "pos": lambda: np.array([[k + 0.5, -1.0 * k, 0.25], [1.0, 2.0 + k, -0.125]]),
+            "vel": lambda: np.array([[-0.5 * k - 1.0, 0.75, 1.0 * k], [0.0, -2.0, 1.5 + k]]),
+            "ekin": lambda: 0.25 * k + 0.125,
+            "vpot": lambda: -0.5 * k - 1.0,
+            "box": lambda: np.array([10.0 + k, 11.0, 12.5]),
+            "temperature": lambda: {"set": 0.25 * (k + 1), "beta": 2.0 ** -(k % 7 + 1)},
+        }
+        if name in known:
+            val = known[name]()
+        elif isinstance(default, bool):
+            val = not default
+        elif isinstance(default, int):
+            val = default + k + 1
+        elif isinstance(default, float):
+            val = (0.0 if default != default else default) + k + 0.5
+        elif isinstance(default, str):
+            val = f"{default}{name}{k}"
+        elif isinstance(default, tuple):
+            val = default + (name, k)
+        elif isinstance(default, list):
+            val = list(default) + [name, k]
+        elif isinstance(default, dict):
+            val = {**default, name: k + 0.5}
+        elif isinstance(default, np.ndarray):
+            val = np.arange(3.0) + k + 1.0
+        else:
+            val = (name, k)
+        if canon(val) == canon(default):
+            val = ("c15-filled", name, k)
+        return val
+
+    def template(self, k):
+        t = self.templ.get(k)
+        if t is None:
+            t = {name: self.fill_value(name, k) for name in self.declared if name not in MODELLED}
+            t["c15_note"] = ("attached", k)
+            t["c15_thermostat"] = {"step": k, "scale": 0.5 * k + 0.25}
+            self.templ[k] = t
+        return t
+
+    def new_frame(self, o, k, rev, style):
+        s = self.System()
+        if style == "sparse":      # only what the engines usually set; the other fields stay default
+            s.order = [float(o)]
+            s.config = (f"file{k}", k)
+            s.vel_rev = bool(rev)
+            s.vpot = 0.5 * k
+            return s
+        for name, val in self.template(k).items():
+            setattr(s, name, val)
+        s.order = [float(o), 0.5 * k - 3.0]
+        s.vel_rev = bool(rev)
+        self.used_fields.update(vars(s))
+        return s
+
+    def mk_path(self, orders, maxlen, t0=0, revs=None, tag0=0, style="full"):
+        from infretis.classes.path import Path
+        p = Path(maxlen=maxlen, time_origin=t0)
+        for i, o in enumerate(orders):
+            p.phasepoints.append(self.new_frame(o, tag0 + i, revs[i] if revs else False, style))
+        return p
+
+    def tag(self, s):
+        """The model's opaque payload: all of vars(frame) except order[0] and vel_rev, interned."""
+        w = whole(s)
+        w.pop("vel_rev", None)
+        try:
+            w["order"] = canon(list(s.order)[1:])
+        except Exception:
+            w["order"] = ("no-order",)
+        key = tuple(sorted(w.items()))
+        t = self.tags.get(key)
+        if t is None:
+            t = self.tags[key] = len(self.tags)
+        return t
 
 
 class Ids:
     """Object identities: originals get 0.., new objects are numbered in order of appearance."""
 
-    def __init__(self, *paths):
+    def __init__(self, F, *paths):
+        self.F = F
         self.ids = {}
         for p in paths:
             for s in p.phasepoints:
@@ -53,35 +247,234 @@ class Ids:
         for s in p.phasepoints:
             if id(s) not in self.ids:
                 self.ids[id(s)] = len(self.ids)
-            o = s.order[0]
-            assert float(o).is_integer()
-            fr.append(f"{int(o)}:{s.config[1]}:{int(bool(s.vel_rev))}:{self.ids[id(s)]}")
+            try:
+                o = s.order[0]
+                o = str(int(o)) if float(o).is_integer() else "?"
+            except Exception:
+                o = "?"
+            rv = getattr(s, "vel_rev", None)
+            rv = str(int(bool(rv))) if isinstance(rv, (bool, int)) or type(rv).__name__ == "bool_" else "?"
+            fr.append(f"{o}:{self.F.tag(s)}:{rv}:{self.ids[id(s)]}")
         ml = p.maxlen
         return f"{','.join(fr) if fr else '-'}|{ml}|{p.time_origin}"
 
 
 def side(x):
-    return {"L": "L", "R": "R", None: "?", "?": "?"}[x]
+    return {"L": "L", "R": "R", None: "?", "?": "?"}.get(x, f"<{x!r}>")
+
+
+def reassign_all(path):
+    """Re-assign EVERY attribute of every frame of the path; returns the attribute names touched."""
+    touched = set()
+    for n, x in enumerate(path.phasepoints):
+        for name in list(vars(x)):
+            setattr(x, name, ("c15-reassigned", name, n))
+            touched.add(name)
+    return touched
+
+
+# ----------------------------------------------------------------------------- the cases
+# Each evaluator takes a JSON-able description, runs the REAL code and returns
+# (request line for the model, implementation's answer in the model's format, oracle error or None).
+
+def case_paste(F, d):
+    from infretis.classes.path import paste_paths
+    b, f, ov, m = d["back"], d["forw"], d["overlap"], d["maxlen"]
+    back = F.mk_path(b, d["back_maxlen"], t0=d["t0"], tag0=0, style=d["style"])
+    forw = F.mk_path(f, d["forw_maxlen"], t0=d["t0"], tag0=d["tag_forw"], style=d["style"])
+    sb, sf = snap(back), snap(forw)
+    ids = Ids(F, back, forw)
+    req = f"paste {ids.enc_path(back)} {ids.enc_path(forw)} {int(ov)} {'N' if m is None else m}"
+    res = paste_paths(back, forw, overlap=ov, maxlen=m)
+    out = ids.enc_path(res)
+    # property oracle, straight from the statement
+    if m is None:
+        m = max(d["back_maxlen"], d["forw_maxlen"])
+    exp = (list(reversed(b)) + list(f[1:] if ov else f))[:m]
+    want = (list(reversed(sb)) + list(sf[1:] if ov else sf))[:m]
+    got = first_orders(res)
+    err = None
+    if got != exp:
+        err = f"paste frames {got} != expected {exp}"
+    elif len(got) != min(m, len(b) + max(len(f) - (1 if ov else 0), 0)):
+        err = "paste length formula violated"
+    elif b and m > 0 and res.phasepoints[0] is not back.phasepoints[-1]:
+        err = "pasted path does not begin with the last backward frame"
+    else:
+        err = (diff_frames("paste does not keep the frames", snap(res), want)
+               or diff_frames("paste changed the backward segment", snap(back), sb)
+               or diff_frames("paste changed the forward segment", snap(forw), sf))
+    return req, out, err
+
+
+def case_reverse(F, d):
+    s, revs, ml, rv = d["orders"], d["revs"], d["maxlen"], d["rev_v"]
+    p = F.mk_path(s, ml, t0=3, revs=revs, style=d["style"])
+    sp = snap(p)
+    ids = Ids(F, p)
+    req = f"reverse {ids.next} {ids.enc_path(p)} {int(rv)}"
+    r = p.reverse(None, rev_v=rv)
+    out = ids.enc_path(r)
+    err = diff_frames("reverse changed the original path", snap(p), sp)
+    if not err and len(s) <= ml:
+        exp = [(o, (not v) if rv else v) for o, v in zip(reversed(s), reversed(revs))]
+        got = [(o, getattr(x, "vel_rev", None)) for o, x in zip(first_orders(r), r.phasepoints)]
+        if got != exp:
+            err = f"reverse gave {got}, expected {exp}"
+        else:
+            err = diff_frames("a single reverse must reverse the frame order and change nothing but the velocity flag",
+                              snap(r), [flipped(w, rv) for w in reversed(sp)])
+        if not err:
+            rr = r.reverse(None, rev_v=rv)
+            err = diff_frames("reversing twice does not restore the frames", snap(rr), sp)
+        if not err:
+            reassign_all(r)
+            err = diff_frames("re-assigning a field of a reversed path's frame changed the original", snap(p), sp)
+    return req, out, err
+
+
+def case_copy(F, d):
+    s, revs, ml = d["orders"], d["revs"], d["maxlen"]
+    p = F.mk_path(s, ml, t0=3, revs=revs, style=d["style"])
+    sp = snap(p)
+    ids = Ids(F, p)
+    req = f"copy {ids.next} {ids.enc_path(p)}"
+    c = p.copy()
+    out = ids.enc_path(c)
+    err = diff_frames("copy changed the original path", snap(p), sp)
+    if not err and len(s) <= ml:
+        err = diff_frames("the frames of a copied path differ from the original's", snap(c), sp)
+    if not err:
+        touched = reassign_all(c)
+        err = diff_frames("re-assigning a field of a copied frame changed the original", snap(p), sp)
+        d["_touched"] = sorted(touched)
+    return req, out, err
+
+
+def case_iadd(F, d):
+    s, o, ml = d["p"], d["other"], d["maxlen"]
+    p = F.mk_path(s, ml, t0=1, style=d["style"])
+    q = F.mk_path(o, 9, t0=2, tag0=50, style=d["style"])
+    sp, sq = snap(p), snap(q)
+    own = list(p.phasepoints)
+    ids = Ids(F, p, q)
+    req = f"iadd {ids.next} {ids.enc_path(p)} {ids.enc_path(q)}"
+    p += q
+    out = ids.enc_path(p)
+    want = sp + sq[:max(ml - len(s), 0)]
+    err = (diff_frames("self += other: frames of the sum", snap(p), want)
+           or diff_frames("self += other changed the other path", snap(q), sq))
+    if not err and any(a is not b for a, b in zip(p.phasepoints, own)):
+        err = "self += other replaced frames of self"
+    if not err:
+        added = p.phasepoints[len(own):]
+        if any(a is b for a in added for b in q.phasepoints):
+            err = "self += other shares frame objects with the other path"
+        else:
+            for n, x in enumerate(added):
+                for name in list(vars(x)):
+                    setattr(x, name, ("c15-reassigned", name, n))
+            err = diff_frames("re-assigning a field of an added frame changed the other path", snap(q), sq)
+    return req, out, err
+
+
+def case_extremes(F, d):
+    s = d["orders"]
+    p = F.mk_path(s, 20, style=d["style"])
+    enc = Ids(F, p).enc_path(p)
+    mn, mx = p.ordermin, p.ordermax
+    out = f"{int(mn[0])}:{int(mn[1])} {int(mx[0])}:{int(mx[1])}"
+    err = None
+    if mn[0] != min(s) or mx[0] != max(s) or s[int(mn[1])] != min(s) or s[int(mx[1])] != max(s):
+        err = f"ordermin/ordermax {mn},{mx} not attained/extreme"
+    return f"ext {enc}", out, err
+
+
+def expected_classification(s, intf):
+    """All four components of check_interfaces, from first/last/min/max only."""
+    lo, hi = min(intf), max(intf)
+    mn, mx = min(s), max(s)
+    start = "L" if s[0] <= lo else ("R" if s[0] >= hi else "?")
+    end = "L" if s[-1] <= lo else ("R" if s[-1] >= hi else "?")
+    middle = mn < intf[1] <= mx
+    cross = [mn < l <= mx for l in intf]
+    return start, end, middle, cross
+
+
+def case_ci(F, d):
+    s, intf = d["orders"], d["interfaces"]
+    p = F.mk_path(s, 20, style=d["style"])
+    enc = Ids(F, p).enc_path(p)
+    st, en, mid, cross = p.check_interfaces(list(intf))
+    out = f"{side(st)} {side(en)} {int(mid == 'M')} {','.join(str(int(bool(c))) for c in cross)}"
+    e_st, e_en, e_mid, e_cross = expected_classification(s, intf)
+    errs = []
+    if side(st) != e_st:
+        errs.append(f"start {st!r} but the first value {s[0]} makes it {e_st!r}")
+    if side(en) != e_en:
+        errs.append(f"end {en!r} but the last value {s[-1]} makes it {e_en!r}")
+    if (mid == "M") != e_mid:
+        errs.append(f"middle marker {mid!r} but min {min(s)} < {intf[1]} <= max {max(s)} is {e_mid}")
+    if [bool(c) for c in cross] != e_cross:
+        errs.append(f"crossing flags {list(cross)} but the extremes [{min(s)}, {max(s)}] give {e_cross}")
+    err = None
+    if errs:
+        err = f"check_interfaces(orders={list(s)}, interfaces={list(intf)}) = {(st, en, mid, list(cross))!r} disagrees with the extreme values: " + "; ".join(errs)
+    return f"ci {enc} {','.join(map(str, intf))}", out, err
+
+
+def case_se(F, d):
+    s, left, right = d["orders"], d["left"], d["right"]
+    p = F.mk_path(s, 20, style=d["style"])
+    enc = Ids(F, p).enc_path(p)
+    r_eff = left if right is None else right
+    req = f"se {enc} {left} {r_eff}"
+    try:
+        if right is None:
+            st, en = p.get_start_point(left), p.get_end_point(left)
+        else:
+            st, en = p.get_start_point(left, right), p.get_end_point(left, right)
+    except AssertionError:
+        return req, "N N", (None if left > r_eff else f"get_start_point/get_end_point({left}, {right}) refused ordered interfaces")
+    out = f"{side(st)} {side(en)}"
+    err = None
+    if left <= r_eff:
+        e_st = "L" if s[0] <= left else ("R" if s[0] >= r_eff else "?")
+        e_en = "L" if s[-1] <= left else ("R" if s[-1] >= r_eff else "?")
+        if (side(st), side(en)) != (e_st, e_en):
+            err = (f"get_start_point/get_end_point(left={left}, right={right}) on orders {list(s)} gave {st!r},{en!r}; "
+                   f"first/last value {s[0]},{s[-1]} make it {e_st!r},{e_en!r}")
+    return req, out, err
+
+
+CASES = {"paste": case_paste, "reverse": case_reverse, "copy": case_copy, "iadd": case_iadd,
+         "extremes": case_extremes, "check_interfaces": case_ci, "start_end": case_se}
 
 
 def run(ctx):
-    ok_proof = common.proof_stage(ctx, "C15", ["extract/c15.vo"])
+    common.proof_stage(ctx, "C15", ["extract/c15.vo"])
     runner = common.runner_stage(ctx, "c15")
     if runner is None:
         return
-    from infretis.classes.path import paste_paths
+    F = Frames()
 
     maxL = 4 if ctx.tier == "quick" else 5
     reqs, metas = [], []
+    rng = ctx.rng
 
-    def add(req, impl_out, oracle_err, desc):
+    def style():
+        return "sparse" if rng.random() < 0.15 else "full"
+
+    def add(desc, dist):
+        req, impl_out, err = CASES[desc["op"]](F, desc)
         reqs.append(req)
-        metas.append((impl_out, oracle_err, desc))
+        metas.append((impl_out, err, desc))
+        ctx.dist(dist)
+        ctx.dist("frames:" + desc["style"])
 
     seqs = [()]
     for L in range(1, maxL + 1):
         seqs += list(itertools.product(ALPHA, repeat=L))
-    rng = ctx.rng
 
     # ---------------- paste: all (back, forw) over short sequences, all limits, both flags
     pasteL = 3 if ctx.tier == "quick" else 4
@@ -90,178 +483,114 @@ def run(ctx):
     if len(pairs) > (6000 if ctx.tier == "quick" else 40000):
         pairs = rng.sample(pairs, 6000 if ctx.tier == "quick" else 40000)
     for b, f in pairs:
-        for m in (0, 1, 2, len(b), len(b) + len(f) - 1, len(b) + len(f), 8):
-            if m < 0:
-                continue
+        for m in sorted({0, 1, 2, len(b), max(len(b) + len(f) - 1, 0), len(b) + len(f), 8}):
             for ov in (True, False):
-                back = mk_path(b, 10, t0=7, tag0=0)
-                forw = mk_path(f, 10, t0=7, tag0=100)
-                ids = Ids(back, forw)
-                req = f"paste {ids.enc_path(back)} {ids.enc_path(forw)} {int(ov)} {m}"
-                res = paste_paths(back, forw, overlap=ov, maxlen=m)
-                out = ids.enc_path(res)
-                # property oracle, straight from the statement
-                exp = list(reversed(b)) + list(f[1:] if ov else f)
-                exp = exp[:m]
-                got = [int(s.order[0]) for s in res.phasepoints]
-                err = None
-                if got != exp:
-                    err = f"paste frames {got} != expected {exp}"
-                elif len(got) != min(m, len(b) + max(len(f) - (1 if ov else 0), 0)):
-                    err = "paste length formula violated"
-                elif b and m > 0 and res.phasepoints[0] is not back.phasepoints[-1]:
-                    err = "pasted path does not begin with the last backward frame"
-                add(req, out, err, {"op": "paste", "back": b, "forw": f, "overlap": ov, "maxlen": m})
-                ctx.dist("paste")
+                add({"op": "paste", "back": b, "forw": f, "overlap": ov, "maxlen": m, "back_maxlen": 10, "forw_maxlen": 10,
+                     "t0": 7, "tag_forw": 100, "style": style()}, "paste")
 
     # ---------------- reverse / copy / iadd / extremes / classification on every sequence
     intf_sets_zero = [(-2, -1, 0), (-2, 0), (-2, -2, 0), (0, 0, 0), (-1, 0, 1), (0, 1), (-3, 0)]
-    intf_sets = [(1, 2, 3), (1, 1, 3), (1, 3, 3), (2, 2, 2), (3, 2, 1), (0, 2, 4), (1, 2), (2, 1, 3, 0)]
+    intf_sets = [(1, 2, 3), (1, 1, 3), (1, 3, 3), (2, 2, 2), (3, 2, 1), (0, 2, 4), (1, 2), (2, 1, 3, 0), (0, 4, 4), (1, 0, 3)]
+    lr_sets = [(1, 3), (2, 2), (0, 4), (2, None), (3, 1), (4, None)]
+    lr_sets_zero = [(-2, 0), (-3, 0), (0, None), (-1, 0), (0, 0), (-1, None)]
     for s in seqs:
         revs = [rng.random() < 0.5 for _ in s]
         for ml in sorted({max(len(s), 1), len(s) + 3, max(len(s) - 1, 0)}):
             for rv in (True, False):
-                p = mk_path(s, ml, t0=3, revs=revs)
-                ids = Ids(p)
-                req = f"reverse {ids.next} {ids.enc_path(p)} {int(rv)}"
-                r = p.reverse(None, rev_v=rv)
-                out = ids.enc_path(r)
-                err = None
-                if len(s) <= ml:
-                    exp = [(o, (not v) if rv else v) for o, v in zip(reversed(s), reversed(revs))]
-                    got = [(int(x.order[0]), bool(x.vel_rev)) for x in r.phasepoints]
-                    if got != exp:
-                        err = f"reverse gave {got}, expected {exp}"
-                    else:
-                        rr = r.reverse(None, rev_v=rv)
-                        got2 = [(int(x.order[0]), bool(x.vel_rev), x.config) for x in rr.phasepoints]
-                        orig = [(int(x.order[0]), bool(x.vel_rev), x.config) for x in p.phasepoints]
-                        if got2 != orig:
-                            err = "reversing twice does not restore the frames"
-                add(req, out, err, {"op": "reverse", "orders": s, "revs": revs, "maxlen": ml, "rev_v": rv})
-                ctx.dist("reverse")
-            # copy + aliasing
-            p = mk_path(s, ml, t0=3, revs=revs)
-            ids = Ids(p)
-            req = f"copy {ids.next} {ids.enc_path(p)}"
-            c = p.copy()
-            out = ids.enc_path(c)
-            err = None
-            before = [(x.order, x.config, x.vel_rev, x.vpot, x.ekin) for x in p.phasepoints]
-            before_v = [(list(x.order), tuple(x.config), x.vel_rev, x.vpot, x.ekin) for x in p.phasepoints]
-            for x in c.phasepoints:
-                x.order = [99.0]
-                x.config = ("zzz", 77)
-                x.vel_rev = not x.vel_rev
-                x.vpot = -1.0
-                x.ekin = -2.0
-                x.pos = None
-            after_v = [(list(x.order), tuple(x.config), x.vel_rev, x.vpot, x.ekin) for x in p.phasepoints]
-            if after_v != before_v:
-                err = "re-assigning a field of a copied frame changed the original"
-            elif len(s) <= ml and len(c.phasepoints) != len(s):
-                err = "copy changed the length"
-            add(req, out, err, {"op": "copy", "orders": s, "maxlen": ml})
-            ctx.dist("copy")
-        # iadd
+                add({"op": "reverse", "orders": s, "revs": revs, "maxlen": ml, "rev_v": rv, "style": style()}, "reverse")
+            add({"op": "copy", "orders": s, "revs": revs, "maxlen": ml, "style": style()}, "copy")
         if len(s) <= 3:
             for o in short[:: max(1, len(short) // 12)]:
                 for ml in (len(s), len(s) + 1, len(s) + len(o), 9):
-                    p = mk_path(s, ml, t0=1)
-                    q = mk_path(o, 9, t0=2, tag0=50)
-                    ids = Ids(p, q)
-                    req = f"iadd {ids.next} {ids.enc_path(p)} {ids.enc_path(q)}"
-                    p += q
-                    out = ids.enc_path(p)
-                    add(req, out, None, {"op": "iadd", "p": s, "other": o, "maxlen": ml})
-                    ctx.dist("iadd")
-        # extremes and classification
+                    add({"op": "iadd", "p": s, "other": o, "maxlen": ml, "style": style()}, "iadd")
         if s:
-            p = mk_path(s, 20)
-            ids = Ids(p)
-            enc = ids.enc_path(p)
-            mn, mx = p.ordermin, p.ordermax
-            out = f"{int(mn[0])}:{int(mn[1])} {int(mx[0])}:{int(mx[1])}"
-            err = None
-            if mn[0] != min(s) or mx[0] != max(s) or s[int(mn[1])] != min(s) or s[int(mx[1])] != max(s):
-                err = "ordermin/ordermax not attained/extreme"
-            add(f"ext {enc}", out, err, {"op": "extremes", "orders": s})
+            add({"op": "extremes", "orders": s, "style": "full"}, "extremes")
             for intf in intf_sets:
-                st, en, mid, cross = p.check_interfaces(list(intf))
-                out = f"{side(st)} {side(en)} {int(mid == 'M')} {','.join(str(int(c)) for c in cross)}"
-                lo, hi = min(intf), max(intf)
-                err = None
-                expc = [min(s) < l <= max(s) for l in intf]
-                if list(cross) != expc:
-                    err = f"crossing flags {cross} disagree with extremes {expc}"
-                exp_st = "L" if s[0] <= lo else ("R" if s[0] >= hi else "?")
-                exp_en = "L" if s[-1] <= lo else ("R" if s[-1] >= hi else "?")
-                if side(st) != exp_st or side(en) != exp_en:
-                    err = f"start/end letters {st},{en} disagree with first/last value"
-                add(f"ci {enc} {','.join(map(str, intf))}", out, err, {"op": "check_interfaces", "orders": s, "interfaces": intf})
-                ctx.dist("check_interfaces")
+                add({"op": "check_interfaces", "orders": s, "interfaces": intf, "style": "full"}, "check_interfaces")
+            for left, right in lr_sets:
+                add({"op": "start_end", "orders": s, "left": left, "right": right, "style": "sparse"}, "start_end")
             # the same classification with negative values and an interface that is exactly 0 (a falsy number)
             s0 = tuple(o - 3 for o in s)
-            p0 = mk_path(s0, 20)
-            enc0 = Ids(p0).enc_path(p0)
             for intf in intf_sets_zero:
-                st, en, mid, cross = p0.check_interfaces(list(intf))
-                out = f"{side(st)} {side(en)} {int(mid == 'M')} {','.join(str(int(c)) for c in cross)}"
-                lo, hi = min(intf), max(intf)
-                err = None
-                expc = [min(s0) < l <= max(s0) for l in intf]
-                if list(cross) != expc:
-                    err = f"crossing flags {cross} disagree with extremes {expc}"
-                exp_st = "L" if s0[0] <= lo else ("R" if s0[0] >= hi else "?")
-                exp_en = "L" if s0[-1] <= lo else ("R" if s0[-1] >= hi else "?")
-                if side(st) != exp_st or side(en) != exp_en:
-                    err = f"start/end letters {st},{en} disagree with first/last value {s0[0]},{s0[-1]} for interfaces {intf}"
-                add(f"ci {enc0} {','.join(map(str, intf))}", out, err, {"op": "check_interfaces", "orders": s0, "interfaces": intf})
-                ctx.dist("check_interfaces_zero")
+                add({"op": "check_interfaces", "orders": s0, "interfaces": intf, "style": "sparse"}, "check_interfaces_zero")
+            for left, right in lr_sets_zero:
+                add({"op": "start_end", "orders": s0, "left": left, "right": right, "style": "full"}, "start_end_zero")
 
-    # ---------------- seeded random larger cases (paste / reverse)
+    # ---------------- seeded random larger cases (paste incl. maxlen=None / reverse / copy)
     nrand = 300 if ctx.tier == "quick" else 3000
     for _ in range(nrand):
         b = tuple(rng.randrange(-50, 50) for _ in range(rng.randrange(0, 30)))
         f = tuple(rng.randrange(-50, 50) for _ in range(rng.randrange(0, 30)))
-        m = rng.randrange(0, 70)
         ov = rng.random() < 0.5
-        back, forw = mk_path(b, 40, t0=rng.randrange(-5, 5)), mk_path(f, 40, tag0=1000)
-        ids = Ids(back, forw)
-        req = f"paste {ids.enc_path(back)} {ids.enc_path(forw)} {int(ov)} {m}"
-        res = paste_paths(back, forw, overlap=ov, maxlen=m)
-        exp = (list(reversed(b)) + list(f[1:] if ov else f))[:m]
-        got = [int(s.order[0]) for s in res.phasepoints]
-        add(req, ids.enc_path(res), None if got == exp else f"paste frames {got} != {exp}",
-            {"op": "paste", "back": b, "forw": f, "overlap": ov, "maxlen": m})
-        ctx.dist("paste_random")
+        if rng.random() < 0.2:
+            m, bml, fml = None, rng.randrange(1, 60), rng.randrange(1, 60)
+            if rng.random() < 0.3:
+                fml = bml
+        else:
+            m, bml, fml = rng.randrange(0, 70), 40, 40
+        add({"op": "paste", "back": b, "forw": f, "overlap": ov, "maxlen": m, "back_maxlen": bml, "forw_maxlen": fml,
+             "t0": rng.randrange(-5, 5), "tag_forw": 1000, "style": style()}, "paste_random")
+    for _ in range(nrand // 3):
+        s = tuple(rng.randrange(-50, 50) for _ in range(rng.randrange(1, 30)))
+        revs = [rng.random() < 0.5 for _ in s]
+        add({"op": "reverse", "orders": s, "revs": revs, "maxlen": len(s) + rng.randrange(0, 5), "rev_v": rng.random() < 0.7,
+             "style": "full"}, "reverse_random")
+        add({"op": "copy", "orders": s, "revs": revs, "maxlen": len(s) + rng.randrange(0, 5), "style": "full"}, "copy_random")
 
     outs = runner.run(reqs)
     corr_fail = 0
+    stmt_fail = 0
     for req, mo, (io, err, desc) in zip(reqs, outs, metas):
         ctx.count(req, nontrivial=True)
         if err:
+            stmt_fail += 1
             ctx.violation(f"C15 statement fails on the implementation: {err}", {"case": desc, "impl": io, "model": mo, "request": req}, True)
         elif mo != io:
             corr_fail += 1
             if corr_fail <= 3:
                 ctx.violation(f"correspondence model/implementation broken for {desc['op']} (property oracle found no failing input among {len(reqs)} cases)",
                               {"correspondence": "c15 runner vs infretis.classes.path", "case": desc, "impl": io, "model": mo, "request": req}, False)
+    # every declared field of the real System class (and the attached ones) must have been exercised
+    touched = set()
+    for _, _, desc in metas:
+        touched.update(desc.pop("_touched", ()))
+    if not stmt_fail:
+        missing = [n for n in F.declared + list(DYNAMIC) if n not in F.used_fields]
+        if missing:
+            ctx.violation(f"generator did not populate System fields {missing}",
+                          {"obligation": "whole-frame generator covers vars(System())", "declared": F.declared}, False)
+        not_touched = [n for n in F.declared + list(DYNAMIC) if n not in touched]
+        if not_touched:
+            ctx.violation(f"copy-independence clause was not evaluated for fields {not_touched}",
+                          {"obligation": "re-assignment of every field of a copied frame", "declared": F.declared}, False)
     for k in (0, len(reqs) // 3, len(reqs) // 2, len(reqs) - 1):
         ctx.sample({"request": reqs[k], "model": outs[k], "impl": metas[k][0]})
     ctx.cov["rule"] = (f"exhaustive: all order sequences over alphabet {ALPHA} up to length {maxL} (reverse/copy/extremes/classification with "
-                       f"{len(intf_sets)} interface lists), all (back,forw) pairs up to length {pasteL} x 7 limits x 2 overlap flags for paste; "
-                       f"{nrand} seeded random pastes; a case is distinct by its request line; all are non-trivial (each exercises a modelled operation)")
-    ctx.cov["correspondence"] = {"compared": len(reqs), "disagreements": corr_fail}
-    ctx.cov["trusted_base"] += ["extraction: ExtrOcamlBasic only; ocaml/util.ml + ocaml/c15_driver.ml", "py/checks/c15.py generators and encoders"]
-    ctx.assumptions += ["orders are integer-valued floats (exact comparisons)", "System reduced to (order[0], config, vel_rev, object identity)"]
+                       f"{len(intf_sets) + len(intf_sets_zero)} interface lists, {len(lr_sets) + len(lr_sets_zero)} (left,right) pairs), all (back,forw) pairs up to length {pasteL} x up to 7 limits x 2 overlap flags for paste; "
+                       f"{nrand} seeded random pastes (1 in 5 with maxlen=None), {nrand // 3} random reverses and copies; frames are whole System objects "
+                       f"(fields {F.declared} from the real class + attached {list(DYNAMIC)}, all non-default; 15% of the cases use sparse frames with default fields); "
+                       f"a case is distinct by its request line; all are non-trivial (each exercises a modelled operation)")
+    ctx.cov["correspondence"] = {"compared": len(reqs), "disagreements": corr_fail, "oracle_failures": stmt_fail,
+                                 "distinct_payloads": len(F.tags), "system_fields": F.declared, "attached_fields": list(DYNAMIC)}
+    ctx.cov["trusted_base"] += ["extraction: ExtrOcamlBasic only; ocaml/util.ml + ocaml/c15_driver.ml", "py/checks/c15.py generators, canonical form of attribute values and encoders"]
+    ctx.assumptions += ["orders are integer-valued floats (exact comparisons)",
+                        "System reduced to (order[0], vel_rev, object identity, payload = interned content of every other attribute in vars(frame))",
+                        "attribute equality is by value (numpy arrays by shape/dtype/bytes)"]
 
 
 def replay(doc):
     import json
     print(json.dumps(doc, indent=1))
-    r = common.Runner("c15")
-    req = doc["replay"].get("request")
+    rep = doc["replay"]
+    req = rep.get("request")
+    case = rep.get("case")
+    if isinstance(case, dict) and case.get("op") in CASES:
+        case = {k: (tuple(v) if isinstance(v, list) and k in ("orders", "back", "forw", "p", "other", "interfaces") else v) for k, v in case.items()}
+        req, out, err = CASES[case["op"]](Frames(), case)
+        print("request now:", req)
+        print("implementation now answers:", out)
+        print("property oracle now says:", err or "holds on this input")
     if req:
+        r = common.Runner("c15")
         print("model now answers:", r.run([req]))
     return 0
